@@ -66,6 +66,12 @@ def main():
         res = core.Result(pid)
         res.notes.append("model or implementation harness did not build; no exploration: " + st["log"][-1500:])
         res.corr_break(stream="build", case="-", why="harness or model did not build")
+    if tier == "thorough" and proof["ok"] and os.environ.get("VERIF_SKIP_COQCHK") != "1":
+        ck = common.coqchk_cached()
+        res.notes.append("coqchk -silent -o over all property files: rc=%s %.0fs: %s" % (ck["rc"], ck["seconds"], ck["summary"][:400]))
+        if not ck["ok"]:
+            proof["ok"] = False
+            proof["failed"] = {"coqchk": ck["summary"][-800:]}
     return core.finish(pid, tier, seed, t0, st, proof, res)
 
 
